@@ -41,6 +41,11 @@ def main():
     wt = tempfile.mkdtemp(prefix='seedwt.', dir='/tmp')
     os.rmdir(wt)
     meta = dict(property=pid, name=name, confirmed=False, ran=[])
+    old_meta = {}
+    try:
+        old_meta = json.load(open(os.path.join(VERIF, 'seeded', name, 'meta.json')))
+    except Exception:
+        pass
     try:
         rc, out = sh(['git', '-C', '/repo', 'worktree', 'add', '-q', '--detach', wt, 'HEAD'])
         assert rc == 0, out
@@ -68,6 +73,9 @@ def main():
             meta['tests_exit'] = rc
             meta['tests_tail'] = out.strip().splitlines()[-1] if out.strip() else ''
             meta['ran'].append(f'30 baseline tests with the change -> exit {rc} ({meta["tests_tail"]}) in {time.time() - t:.0f}s')
+        if notests and 'tests_exit' in old_meta:      # baseline tests were run when the change was first confirmed
+            meta['tests_exit'], meta['tests_tail'] = old_meta['tests_exit'], old_meta.get('tests_tail', '')
+            meta['ran'].append(f'30 baseline tests with the change -> exit {meta["tests_exit"]} ({meta["tests_tail"]}) [from the first confirmation run]')
         rc1, out1 = sh(['/venv/bin/python', demo2], cwd=wt, timeout=1800)
         meta['demo_changed_exit'] = rc1
         meta['demo_changed_tail'] = out1.strip()[-600:]
